@@ -7,18 +7,21 @@ REPO=${VERIF_REPO:-/repo}
 B=/verif/build/$V
 case "$V" in
   asan) SAN="-fsanitize=address,undefined -fno-sanitize-recover=undefined -fno-sanitize=vptr,nonnull-attribute";;
-  tsan) SAN="-fsanitize=thread";;
+  # -fno-inline: race reports are classified through the binary's symbol table (no inline records there), so the
+  # function that really contains an access must exist as a symbol (e.g. the header-inline ComplexTypeInfo::getContentModel)
+  tsan) SAN="-fsanitize=thread -fno-inline";;
   plain) SAN="";;
   *) echo "unknown variant $V" >&2; exit 2;;
 esac
-if [ ! -f "$B/build.ninja" ] || [ "$(cat $B/.verif_repo 2>/dev/null)" != "$REPO" ]; then
+FLAGS="-O1 -g -DNDEBUG -DXERCES_VERIF_HOOKS $SAN -fno-omit-frame-pointer -Wno-everything"
+if [ ! -f "$B/build.ninja" ] || [ "$(cat $B/.verif_repo 2>/dev/null)" != "$REPO|$FLAGS" ]; then
   rm -rf "$B"; mkdir -p "$B"
   cmake -G Ninja -S "$REPO" -B "$B" -DCMAKE_BUILD_TYPE=None \
     -DCMAKE_C_COMPILER=clang -DCMAKE_CXX_COMPILER=clang++ -DBUILD_SHARED_LIBS=OFF \
-    -DCMAKE_CXX_FLAGS="-O1 -g -DNDEBUG -DXERCES_VERIF_HOOKS $SAN -fno-omit-frame-pointer -Wno-everything" \
+    -DCMAKE_CXX_FLAGS="$FLAGS" \
     -DCMAKE_C_FLAGS="-O1 -g -DNDEBUG $SAN" \
     -Dnetwork-accessor=curl -Dtranscoder=icu -Dmessage-loader=inmemory -Dmutex-manager=standard \
     > "$B.cmake.log" 2>&1 || { cat "$B.cmake.log" >&2; exit 2; }
-  echo "$REPO" > "$B/.verif_repo"
+  echo "$REPO|$FLAGS" > "$B/.verif_repo"
 fi
 ninja -C "$B" xerces-c > "$B.ninja.log" 2>&1 || { tail -50 "$B.ninja.log" >&2; exit 2; }
